@@ -9,10 +9,11 @@ Local Open Scope nat_scope.
 (* what the harness reads off the real client at the end of a scenario *)
 Record obs := mkObs {
   o_connected : bool; o_est : eio_state; o_nss : list ns; o_args : cargs; o_cns : list ns;
-  o_rtask : option nat; o_aflag : bool; o_rcl : nat; o_live : list nat }.
+  o_rtask : option nat; o_aflag : bool; o_rcl : nat; o_live : list nat;
+  o_cbs : list (ns * (nat * list (nat * nat))) }.     (* self.callbacks: ns -> (next id, [(id, callback)]) *)
 Definition obs_of (st : state) : obs :=
   mkObs (connected st) (est st) (nss st) (args st) (cns st) (rtask st) (aflag st) (rcl st)
-        (map t_id (tasks st)).
+        (map t_id (tasks st)) (cbs st).
 
 Inductive c10case :=
 | Case (p : params) (evs : list event) (effs : list (list eff)) (fin : obs).
@@ -49,6 +50,9 @@ Definition eff_eqb (a b : eff) : bool :=
   | FSpawn i, FSpawn j => Nat.eqb i j
   | FTaskEnd i _, FTaskEnd j _ => Nat.eqb i j
   | FResult x, FResult y => callres_eqb x y
+  | FEmit x, FEmit y => Bool.eqb x y
+  | FSendEvent n i, FSendEvent n' i' => Nat.eqb n n' && Nat.eqb i i'
+  | FCallback k, FCallback k' => Nat.eqb k k'
   | FLost, FLost => true
   | _, _ => false          (* FOther never equals anything, not even itself *)
   end.
@@ -57,7 +61,11 @@ Definition obs_eqb (a b : obs) : bool :=
   list_eqb Nat.eqb (o_nss a) (o_nss b) && cargs_eqb (o_args a) (o_args b) &&
   list_eqb Nat.eqb (o_cns a) (o_cns b) && opt_eqb Nat.eqb (o_rtask a) (o_rtask b) &&
   Bool.eqb (o_aflag a) (o_aflag b) && Nat.eqb (o_rcl a) (o_rcl b) &&
-  list_eqb Nat.eqb (o_live a) (o_live b).
+  list_eqb Nat.eqb (o_live a) (o_live b) &&
+  list_eqb (fun x y => Nat.eqb (fst x) (fst y) && Nat.eqb (fst (snd x)) (fst (snd y)) &&
+                       list_eqb (fun u v => Nat.eqb (fst u) (fst v) && Nat.eqb (snd u) (snd v))
+                                (snd (snd x)) (snd (snd y)))
+           (o_cbs a) (o_cbs b).
 
 (* correspondence: the model's run of the scenario equals the observation *)
 Definition agree (p : params) (evs : list event) (effs : list (list eff)) (fin : obs) : bool :=
@@ -66,7 +74,8 @@ Definition agree (p : params) (evs : list event) (effs : list (list eff)) (fin :
 
 (* ---- the property evaluated on an observation ---- *)
 (* clause numbers: 2 delay, 3 attempts/stop at first success/handlers run again, 4 only accidental,
-   5 abort, 6 single effort, 7 same connection parameters, 8 retry after every accidental loss *)
+   5 abort, 6 single effort, 7 same connection parameters, 8 retry after every accidental loss,
+   9 a (re)connection starts fresh: ack ids restart at 1, no callback of an earlier connection runs *)
 Definition wait_ok (p : params) (k : nat) (w : Q) : bool :=
   Qle_bool (Qabs (w - ideal p k)) (Qabs (rfactor p)).
 
@@ -76,11 +85,19 @@ Record cst := mkC {
   c_att : nat;            (* transport connection attempts of the current effort *)
   c_args : cargs;         (* arguments of the last application connect() that reached the transport *)
   c_cns : list ns;
-  c_bad : list nat }.     (* clauses violated so far *)
+  c_bad : list nat;       (* clauses violated so far *)
+  c_ids : list (ns * nat);          (* ack ids issued per namespace on the current connection *)
+  c_pend : list nat;                (* callbacks registered on the current connection, not yet run *)
+  c_ncb : nat }.                    (* emits with a callback that did not raise, so far (names the callbacks) *)
 Definition flag (ok : bool) (clause : nat) (c : cst) : cst :=
-  if ok then c else mkC (c_live c) (c_k c) (c_att c) (c_args c) (c_cns c) (clause :: c_bad c).
+  if ok then c else mkC (c_live c) (c_k c) (c_att c) (c_args c) (c_cns c) (clause :: c_bad c)
+                        (c_ids c) (c_pend c) (c_ncb c).
 Definition upd (c : cst) (lv : list nat) (k att : nat) : cst :=
-  mkC lv k att (c_args c) (c_cns c) (c_bad c).
+  mkC lv k att (c_args c) (c_cns c) (c_bad c) (c_ids c) (c_pend c) (c_ncb c).
+Definition upd_cb (c : cst) (ids : list (ns * nat)) (pend : list nat) : cst :=
+  mkC (c_live c) (c_k c) (c_att c) (c_args c) (c_cns c) (c_bad c) ids pend (c_ncb c).
+Definition issued (n : ns) (ids : list (ns * nat)) : nat :=
+  List.length (filter (fun x => Nat.eqb (fst x) n) ids).
 Definition nonempty {A} (l : list A) : bool := match l with [] => false | _ => true end.
 Definition is_lost (e : eff) : bool := match e with FLost => true | _ => false end.
 Definition is_eio_disc (e : eff) : bool := match e with FEioDisconnect _ => true | _ => false end.
@@ -103,7 +120,19 @@ Definition chk_eff (p : params) (ev : event) (c : cst) (e : eff) : cst :=
       let c := flag (nonempty (c_live c)) 3 c in
       let c := flag (negb (is_abort_ev ev)) 5 c in
       upd c (c_live c) (S (c_k c)) (c_att c)
+  | FLost => upd_cb c [] []             (* the connection is over: nothing of it may survive *)
+  | FSendEvent n id =>
+      (* the k-th id issued for n on this connection is k *)
+      let c := flag (Nat.eqb id (S (issued n (c_ids c)))) 9 c in
+      upd_cb c ((n, id) :: c_ids c) (c_pend c)
+  | FEmit true =>
+      mkC (c_live c) (c_k c) (c_att c) (c_args c) (c_cns c) (c_bad c) (c_ids c)
+          (c_pend c ++ [c_ncb c]) (S (c_ncb c))
+  | FCallback k =>
+      let c := flag (existsb (Nat.eqb k) (c_pend c)) 9 c in
+      upd_cb c (c_ids c) (filter (fun j => negb (Nat.eqb k j)) (c_pend c))
   | FEioConnect u h t q =>
+      let c := upd_cb c [] [] in         (* a new transport connection is being made *)
       if is_connect_ev ev then c
       else if is_timeout ev then
         let c := flag (attempts_left p (c_att c)) 3 c in
@@ -121,7 +150,8 @@ Definition chk_eff (p : params) (ev : event) (c : cst) (e : eff) : cst :=
 Definition chk_event (p : params) (c : cst) (ev : event) (es : list eff) : cst :=
   let c := match ev with
            | Connect a l _ =>
-               if existsb is_eio_connect es then mkC (c_live c) (c_k c) (c_att c) a l (c_bad c) else c
+               if existsb is_eio_connect es
+               then mkC (c_live c) (c_k c) (c_att c) a l (c_bad c) (c_ids c) (c_pend c) (c_ncb c) else c
            | _ => c
            end in
   let live_before := c_live c in
@@ -143,7 +173,7 @@ Fixpoint chk_events (p : params) (c : cst) (evs : list event) (effs : list (list
   | _, _ => c          (* ragged observation: reported by [agree] *)
   end.
 
-Definition c0 : cst := mkC [] 0 0 (mkArgs 0 0 0 0 0) [] [].
+Definition c0 : cst := mkC [] 0 0 (mkArgs 0 0 0 0 0) [] [] [] [] 0.
 Definition chk_c10 (p : params) (evs : list event) (effs : list (list eff)) (fin : obs) : list nat :=
   let c := chk_events p c0 evs effs in
   c_bad (flag (Nat.leb (List.length (o_live fin)) 1) 6 c).
@@ -151,13 +181,13 @@ Definition chk_c10 (p : params) (evs : list event) (effs : list (list eff)) (fin
 Definition bit (l : list nat) (clause : nat) : nat :=
   if existsb (Nat.eqb clause) l then Nat.pow 2 clause else 0.
 (* 0 fine; bit 1 (value 1): model and implementation disagree; bit 2 (value 2): the observation
-   violates the property; values 4,8,...,256 name the violated clauses 2..8 *)
+   violates the property; values 4,8,...,512 name the violated clauses 2..9 *)
 Definition c10_eval (c : c10case) : nat :=
   match c with
   | Case p evs effs fin =>
       let bad := chk_c10 p evs effs fin in
       (if agree p evs effs fin then 0 else 1) + (if nonempty bad then 2 else 0) +
-      bit bad 2 + bit bad 3 + bit bad 4 + bit bad 5 + bit bad 6 + bit bad 7 + bit bad 8
+      bit bad 2 + bit bad 3 + bit bad 4 + bit bad 5 + bit bad 6 + bit bad 7 + bit bad 8 + bit bad 9
   end.
 
 (* for --replay: the model's run next to the observation *)
